@@ -37,7 +37,7 @@ PROPS = {
         "explanation": "Non-interference argument: threads share nothing but channels and the file system (capture inventory); the only contended resource is the cache directory, on which no check-then-act may turn a lost race into a hard error; absence of a cache entry is never an error; channel results are consumed in receiver order, never arrival order. Not decided: equality of final bytes.",
     },
     "C07": {
-        "rules": ["C07.R1", "C07.R2", "C07.R3", "C07.R4", "C01.R6", "C01.R9", "C01.R10", "C18.R1", "C18.R2"],
+        "rules": ["C07.R1", "C07.R2", "C07.R3", "C07.R4", "C07.R5", "C01.R6", "C01.R9", "C01.R10", "C18.R1", "C18.R2"],
         "explanation": "Decides: a file enters the cache only under the hash computed from that very path with no mutation in between; one naming scheme for writer and readers; only the two renames of cache.rs write into the cache directory; (path, assumed state) pairs come from one FileInfo; hashes are refreshed after a command. Not decided: truth of remembered (hash, mtime) pairs at runtime.",
     },
     "C08": {
@@ -53,7 +53,7 @@ PROPS = {
         "explanation": "Decides: clean backs up every existing target of every node (complete loops, no skipping path, errors returned); a missing target with a remembered hash is restored by rename from the entry named by that hash; downloaded files get their remembered permission; clean honours its goal. Not decided: end-to-end behaviour on a real file system.",
     },
     "C11": {
-        "rules": ["C11.R1", "C11.R2", "C11.R4", "C04.R2", "C16.R2"],
+        "rules": ["C11.R1", "C11.R2", "C11.R4", "C11.R5", "C04.R2", "C16.R2"],
         "explanation": "Decides: user data moves only by single renames (no open+create copy); history written only after a successful join, the file-state table only after all joins; state files read back by a strict decoder must be replaced atomically (temp + rename). Not decided: the disk state at each individual crash point (fault enumeration).",
     },
     "C12": {
@@ -65,7 +65,7 @@ PROPS = {
         "explanation": "Injectivity of the hashed serialisation as a chain of structural facts (modulo SHA-256): all three fields reach the hash completely and in order; every element is followed by a newline and every section by a delimiter line ':' while the parser never stores a line that is empty or ':' and splits on newline; targets and sources are sorted (or checked sorted), the command is not; the identity names the history file and is the hash of the very strings the node carries. Not decided: nothing of the statement beyond hash collisions; end-to-end use of the identity is C01.",
     },
     "C14": {
-        "rules": ["C14.R1", "C14.R2", "C14.R3", "C14.R4", "C14.R5"],
+        "rules": ["C14.R1", "C14.R2", "C14.R3", "C14.R4", "C14.R5", "C14.R6"],
         "explanation": "Decides: the parser's panic obligations (bounds checks guarded by length tests, counters); every state-machine error carries the file name and a line counter that starts at 1 and advances exactly once per line; the transition table read back from the code equals the documented one (4 modes x {empty, ':', other} and the end-of-input verdicts); bundle nodes are merged through a BTreeMap (canonical order, duplicates merged, kind clash rejected); the bundle layer's rejections exist and are guarded. Not decided: equality of the accepted language / yielded strings with the grammar for all texts.",
     },
     "C15": {
@@ -73,11 +73,11 @@ PROPS = {
         "explanation": "Decides: the chunk loop feeds the SHA-256 digest exactly buffer[..n] of each read and returns only at end of file; the directory hash covers the listing and every entry's own hash; encoder alphabet and decoder table are mutual inverses over exactly the 62 alphanumerics with consistent base, padding, endianness and length; the decoder rejects wrong length, foreign characters and values over 32 bytes; the codec's panic obligations. Not decided: correctness of rust-crypto / num-bigint; equality with an independent SHA-256 (runtime comparison).",
     },
     "C16": {
-        "rules": ["C16.R1", "C16.R2", "C16.R3", "C16.R4"],
+        "rules": ["C16.R1", "C16.R2", "C16.R3", "C16.R4", "C16.R5"],
         "explanation": "Decides: writer and reader of each state file instantiate bincode with the same type through the default entry points; a decode error is an error all the way up to the entry points (never a default value); no panic-capable local site is reachable from the state readers. Not decided: bincode's behaviour on arbitrary, truncated or bit-flipped bytes (dependency semantics).",
     },
     "C17": {
-        "rules": ["C17.R1", "C17.R2", "C17.R3", "C04.R2"],
+        "rules": ["C17.R1", "C17.R2", "C17.R3", "C04.R2", "C07.R5"],
         "explanation": "Decides: insert never overwrites (only on the miss edge of the same key) and maps Contradiction to Err; every successful re-execution passes through insert; exactly the indices whose tickets differ are reported and mapped to paths[i] of the refreshed blob; the earlier record cannot leave through an error. Not decided: whether a given history forces re-execution.",
     },
     "C18": {
